@@ -21,7 +21,7 @@ FN = r'^yui::misc::int_ext::<impl misc::div_round::DivRound for T>::div_round$'
 
 
 def sk(t):
-    return re.sub(r'#\d+\.\d+', '', show(t))
+    return re.sub(r'#(?:i\d+:)?\d+\.\d+', '', show(t))
 
 
 class Model:
